@@ -86,10 +86,27 @@ def run_case(arg):
         nroots = r.choice([1, 2, 3])
         spec, meta = tree.gen_dup_tree(r, n_classes=r.randrange(4, 10), max_members=5, hostile_p=0.2, n_dirs=r.randrange(2, 8),
                                        roots=nroots, hardlinks=True, lens=[100, 4096, 5000, 16384, 20000, 65536, 70000, 131073, 200000])
+        links_mode = r.random() < 0.35
+        if links_mode:
+            # --follow-links with ignore files and symlinks: several routes lead to the same file
+            fl = [e for e in spec["entries"] if e["t"] == "f"]
+            dirs_ = sorted({e["p"].rsplit("/", 1)[0] for e in fl})
+            for k in range(r.randrange(1, 4)):
+                dd_ = r.choice(dirs_)
+                inside = [e for e in fl if e["p"].rsplit("/", 1)[0] == dd_]
+                if not inside:
+                    continue
+                victim = r.choice(inside)
+                base_name = victim["p"].rsplit("/", 1)[1]
+                spec["entries"].append({"t": "raw", "p": dd_ + "/.gitignore", "data": base_name + "\n", "mtime": 1})
+                other = r.choice(dirs_)
+                up = "../" * other.count("/")
+                spec["entries"].append({"t": "l", "p": other + "/zz-link%d" % k, "to": up + "../" + victim["p"] if False else os.path.relpath(victim["p"], other)})
+                spec["entries"].append({"t": "l", "p": other + "/aa-dirlink%d" % k, "to": os.path.relpath(dd_, other)})
         tree.materialise(spec, troot)
         roots = spec["roots"]
         home = os.path.join(d, "home")
-        base = {"hash_fn": r.choice(gm.HASH_FNS), "kind": r.choice(gm.KINDS), "max_prefix": None, "max_suffix": None, "threads": None,
+        base = {"follow_links": links_mode, "hash_fn": r.choice(gm.HASH_FNS), "kind": r.choice(gm.KINDS), "max_prefix": None, "max_suffix": None, "threads": None,
                 "cache": None, "transform": None, "match_links": r.random() < 0.2, "rf": r.choice([None, None, ("over", 0), ("unique", None)]),
                 "min0": False}
         out = []
